@@ -350,5 +350,9 @@ def check_roundtrip(rep, fb, rule_prefix="inv.buf"):
                 Ke = p["cells"]["self"][2]["iv"][1]
                 Kd = T.bsubst(q["cells"]["self"][2]["iv"][1], {"data": c}, lenv, F2)
                 rep.ob(rule_prefix + ".state", "%s/%s" % (inst, kind), T.bequal(Ke, Kd, F2), "both sides hold the same block afterwards", loc, computed=T.bshow(Kd), expected=T.bshow(Ke))
+                pe_, pd_ = p["cells"]["self"][2]["pos"], q["cells"]["self"][2]["pos"]
+                le = {a: b for a, b in lenv.items()}
+                same_pos = pe_[0] == "size" and pd_[0] == "size" and F2.prove_eq(pe_[1] - T.lsub(pd_[1], le))
+                rep.ob(rule_prefix + ".pos", "%s/%s" % (inst, kind), same_pos, "and the same position (so the next call continues in step)", loc, computed=show_value(pd_), expected=show_value(pe_))
         except (Undecided, KeyError) as e:
             rep.undecided(rule_prefix, "%s/%s" % (inst, kind), str(e), loc)
